@@ -49,7 +49,7 @@ PROFILES = {
     "C07": {"w": _p(), "clients": (1, 2), "fault_rate": 0.0, "nonunitary": 0.3},
     "C08": {"w": _p(struct=14, config=3, kraus=5, op1=10, opx=6), "clients": (1, 1), "fault_rate": 0.0, "struct_bias": "level", "no_estimator": True},
     "C09": {"w": _p(povm=16, op1=9, opx=8, struct=5, measure=1, kraus=2), "clients": (1, 1), "fault_rate": 0.0},
-    "C10": {"w": _p(resize=14, op1=12, opx=5, struct=5, kraus=2, measure=1), "clients": (1, 1), "fault_rate": 0.06, "faults": ["shrink_below_support"], "fock_bias": True},
+    "C10": {"w": _p(resize=14, op1=12, opx=5, struct=5, kraus=2, measure=1), "clients": (1, 1), "fault_rate": 0.15, "faults": ["shrink_below_support"], "fock_bias": True},
     "C11": {"w": _p(opx=16, op1=10, struct=5, measure=2, kraus=1, povm=0.3, resize=1), "clients": (1, 1), "fault_rate": 0.0, "fock_bias": True, "optics": True, "min_envs": 2},
     "C13": {"w": _p(mk_ce=8, measure=8, struct=8, opx=8, op1=4, povm=2), "clients": (2, 3), "fault_rate": 0.0, "min_envs": 2},
     "C14": {"w": _p(measure=10, povm=5, op1=10, opx=8, struct=4, config=0), "clients": (1, 2), "fault_rate": 0.0},
